@@ -5,7 +5,7 @@ from .state import (State, MapState, MOVED, UNIT, TRUE, FALSE, I, OPTION, RESULT
                     map_terms, terms_of, is_persistent)
 from . import slots
 from .slots import Unproven
-from .interp import Interp, Outcome, MAX_STEPS, WIDEN_AFTER, short, SLICE_ITER, SLICE_ITERMUT, RANGE
+from .interp import Pruned, Interp, Outcome, MAX_STEPS, WIDEN_AFTER, short, SLICE_ITER, SLICE_ITERMUT, RANGE
 from .facts import ty_is_mu
 
 ITER_TRAIT = 'core::iter::traits::iterator::Iterator'
@@ -289,6 +289,8 @@ class Engine(Interp):
                             results.append(r)
             except Unproven as e:
                 self.violate('SHAPE', 'unproven', 'interpreter', str(e))
+            except Pruned:
+                pass
         return results
 
     def exec_stmt(self, st, fid, body, stmt):
